@@ -3,7 +3,7 @@ from __future__ import annotations
 
 import random
 
-from harness import rtcheck, rtmodel
+from harness import rtcheck, rtfine, rtmodel
 from harness.common import Ctx, Outcome
 
 MANIFEST_ENTRY = dict(
@@ -45,16 +45,23 @@ def scenarios(ctx: Ctx):
 
 def run(ctx: Ctx) -> Outcome:
     if ctx.replay:
+        if ctx.replay['replay']['scenario'].get('fine'):
+            return rtfine.replay_outcome('C07', ctx)
         return rtcheck.replay_outcome('C07', ctx)
     scs = scenarios(ctx)
+    # WorkerFine.tla (the worker's two threads at shared-access granularity): its TLC runs go on in the background
+    fine = rtfine.start('C07', ctx)
     model_cov, guided, notes = rtmodel.model_check_and_generate('C07', ctx)
     # a few executions on real OS processes and sockets (OS scheduling), validated by the same L1 specification
     real = [{'topo': ['detached', [2]], 'progs': rtcheck.LIB[n], 'clients': [[['submit', 'H0', 'root'], ['result', 'H0']]],
              'sched': ['os'], 'lines': False, 'crash': None, 'probe': False} for n in (['W', 'N'] if ctx.quick else ['W', 'N', 'A', 'B', 'D'] * 4)]
     real_traces = rtcheck.run_real_scenarios(real, ctx)
     model_cov['real_process_runs'] = len(real_traces)
-    out = rtcheck.validate('C07', scs, ctx, extra_traces=list(guided) + real_traces, extra_cov=model_cov)
-    out.notes += notes
+    # ... its behaviours and historical counterexamples replayed into the real Worker line by line, recorded runs validated back
+    fine_cov, fine_traces, fine_notes = fine.result()
+    rtfine.merge(model_cov, fine_cov)
+    out = rtcheck.validate('C07', scs, ctx, extra_traces=list(guided) + real_traces + fine_traces, extra_cov=model_cov)
+    out.notes += notes + fine_notes
     out.assumptions = ['per-channel FIFO delivery; a select returns one ready connection at a time (every order is realisable by timing)',
                        'task bodies are deterministic programs over submit/map/next/await; values are task ids']
     return out
